@@ -486,10 +486,13 @@ func c15Owners(c *core.Ctx, pkg *packages.Package) {
 	}
 }
 
-func c15Lookup(c *core.Ctx, pkg *packages.Package) {
+func c15Lookup(c *core.Ctx, pkg *packages.Package) { c15LookupAs(c, pkg, "R6", true) }
+
+// c15LookupAs runs the lookup rules under rule id R (shared with C14, whose ranges are defined by this lookup).
+func c15LookupAs(c *core.Ctx, pkg *packages.Package, R string, batch bool) {
 	fn := an.FindFunc(pkg, "PartitionRing.ActivePartitionForKey")
 	if fn == nil {
-		c.Miss("R6", "func=ActivePartitionForKey", "not found")
+		c.Miss(R, "func=ActivePartitionForKey", "not found")
 		return
 	}
 	c.Analysed(fn.String())
@@ -503,7 +506,7 @@ func c15Lookup(c *core.Ctx, pkg *packages.Package) {
 		n++
 		ix, ok := an.Unparen(r.Results[0]).(*ast.IndexExpr)
 		if !ok || fn.Canon(ix.X) != "recv.ringPartitionIDs" {
-			c.Undec("R6", "func=ActivePartitionForKey:return", r.Pos(), "the partition returned is "+fn.Canon(r.Results[0])+", not an element of ringPartitionIDs guarded by the active flag of the same index")
+			c.Undec(R, "func=ActivePartitionForKey:return", r.Pos(), "the partition returned is "+fn.Canon(r.Results[0])+", not an element of ringPartitionIDs guarded by the active flag of the same index")
 			continue
 		}
 		idx := types_ExprString(ix.Index)
@@ -515,17 +518,40 @@ func c15Lookup(c *core.Ctx, pkg *packages.Package) {
 		}
 		iv := fn.ObjOf(ix.Index)
 		opts.NoTrack = map[types_Object]bool{iv: true}
+		guard := "recv.ringPartitionActive[" + strings.TrimSpace(idx) + "]"
+		// the other spelling: ranging over the flags (or a tail/head slice of them) and returning the id at
+		// the element's position in the full slice — low bound + position
+		if rs, isRange := loop.(*ast.RangeStmt); isRange && rs.Value != nil {
+			x, low := an.Unparen(rs.X), ""
+			if sl, isSlice := x.(*ast.SliceExpr); isSlice {
+				x = sl.X
+				if sl.Low != nil && fn.Canon(sl.Low) != "0" {
+					low = fn.Canon(sl.Low)
+				}
+			}
+			if fn.Canon(x) == "recv.ringPartitionActive" {
+				pos, got := "keyof("+fn.Canon(rs.X)+")", fn.Canon(ix.Index)
+				if (low == "" && got == pos) || (low != "" && (got == "("+low+" + "+pos+")" || got == "("+pos+" + "+low+")")) {
+					guard = "each(" + fn.Canon(rs.X) + ")"
+				} else {
+					c.Viol(R, "func=ActivePartitionForKey:return", r.Pos(), fmt.Sprintf("the id returned is at index %s, but the flag tested is the one at %s%s of the flags", got, map[bool]string{true: "", false: low + " + "}[low == ""], pos))
+					continue
+				}
+			}
+		}
 		t := an.Table{G: g, From: from, Opts: opts, MayOnly: true, Atoms: []an.Atom{{Name: "active", Values: []string{"T", "F"}}},
-			Binder: &an.Binder{Fn: fn, Bool: map[string]string{"recv.ringPartitionActive[" + strings.TrimSpace(idx) + "]": "active"}}, Targets: []an.Loc{g.Locate(r)},
+			Binder: &an.Binder{Fn: fn, Bool: map[string]string{guard: "active"}}, Targets: []an.Loc{g.Locate(r)},
 			Want: func(row an.Row, _ int) an.Tri { return an.FromBool(row["active"] == "T") }}
 		res := t.Run()
 		// the index is not modified between the test and the return
-		c.Check(res.OK(), "R6", "func=ActivePartitionForKey:return", r.Pos(), "returns ringPartitionIDs[i] only when ringPartitionActive[i] for the same i: "+res.Summary(), res.Rows)
+		c.Check(res.OK(), R, "func=ActivePartitionForKey:return", r.Pos(), "returns ringPartitionIDs[i] only when ringPartitionActive[i] for the same i: "+res.Summary(), res.Rows)
 	}
 	if n == 0 {
-		c.Undec("R6", "func=ActivePartitionForKey:return", fn.Pos(), "no successful return found")
+		c.Undec(R, "func=ActivePartitionForKey:return", fn.Pos(), "no successful return found")
 	}
-	c15Batch(c, pkg)
+	if batch {
+		c15Batch(c, pkg)
+	}
 	// parallel slices filled consistently
 	if b := an.FindFunc(pkg, "buildRingTokenPartitionLookups"); b != nil {
 		c.Analysed(b.String())
@@ -543,9 +569,9 @@ func c15Lookup(c *core.Ctx, pkg *packages.Package) {
 			}
 			return true
 		})
-		c.Check(idW == "p1[each(p0)]" && actW == "p2["+idW+"].IsActive()", "R6", "func=buildRingTokenPartitionLookups", b.Pos(), fmt.Sprintf("ids[i] = %s; active[i] = %s (the active flag of the partition that owns token i)", idW, actW), 1)
+		c.Check(idW == "p1[each(p0)]" && actW == "p2["+idW+"].IsActive()", R, "func=buildRingTokenPartitionLookups", b.Pos(), fmt.Sprintf("ids[i] = %s; active[i] = %s (the active flag of the partition that owns token i)", idW, actW), 1)
 	} else {
-		c.Miss("R6", "func=buildRingTokenPartitionLookups", "not found")
+		c.Miss(R, "func=buildRingTokenPartitionLookups", "not found")
 	}
 }
 
